@@ -23,7 +23,7 @@ TEXT = {
                    "Expression objects as arguments. A third reference besides the fresh instance and the "
                    "per-run record: every canary's outcome in a process of its own that has solved nothing "
                    "else, computed before the search starts (catches state shared by all instances that "
-                   "an earlier run of the same worker has already set).",
+                   "an earlier run of the same worker has already set). One run in 40 is a marathon: up to 160 solve() calls on the same instances (counters, caches and thresholds that only a long-lived instance reaches).",
         level_note="Trusted: a fresh instance is the reference (history must not matter, by the "
                    "property); comparison is on repr of value / exception type and args. Sampled "
                    "histories, not all.",
@@ -73,7 +73,10 @@ TEXT = {
                    "rebase() of a product whose custom unit's scope has ended; refused conversions) must "
                    "leave its own object as it was, too. The caller writes into arrays it owns (the one a "
                    "quantity was built from, the one value() handed out): only the owner of that storage "
-                   "may change; members are also taken from a long-lived Unit() accessor.",
+                   "may change; members are also taken from a long-lived Unit() accessor. A reading in "
+                   "another unit (value(unit)) is compared with the reading of a fresh quantity built from "
+                   "the member's own value() and units(): a long-lived operand reads like a new one. One "
+                   "run in 40 is a marathon (a history ten times the ordinary cap of 40 operations).",
         level_note="Trusted: NumPy equality; a float that became an equal Decimal is not counted as a "
                    "change. Sampled histories, not all.",
         design_ref="4 (C07)"),
@@ -121,8 +124,10 @@ TEXT = {
                    "further; unsigned-integer columns, descending sorts with zeros; plain, restarted, nested and zipped "
                    "iteration over a table are compared with the model. The grid and combination clauses are "
                    "stateless and are enumerated exhaustively (n <= 40, columns <= 8, both orders, list "
-                   "and dict data; all shapes of <= 3 lists of <= 3 items) - that part is plain "
-                   "enumeration and is labelled so in the evidence.",
+                   "and dict data; all shapes of <= 3 lists of <= 3 items; every query asked again, in "
+                   "another order and as two passes at once on the same object) - that part is plain "
+                   "enumeration and is labelled so in the evidence. One run in 40 is a marathon (up to 400 "
+                   "operations: collectors of hundreds of rows, growth boundaries of array columns).",
         level_note="Keys are identifier-like strings that are not attribute names of the class; columns "
                    "are homogeneously typed (int, float without NaN, str, bool) or int-with-None (never "
                    "the sort column): mixed str/number columns are outside what the statement's rows can "
@@ -144,7 +149,9 @@ TEXT = {
                    "declared node left without value); rounds that define units only, custom units as the "
                    "*target* of a conversion, none assigned last to a declared node that has had a value, a declared node copied by "
                    "an import before it has a value, the parser used as a context manager and asked to "
-                   "parse after its block, accessors read in both orders of formats. Oracles: commit/abort as predicted, names in order "
+                   "parse after its block, accessors read in both orders of formats; one run in 40 is a "
+                   "marathon (up to 24 rounds, texts of up to ~90 statements that mostly define: "
+                   "environments of dozens of nodes). Oracles: commit/abort as predicted, names in order "
                    "of first appearance, type class / width / sign, unit and value (1e-12 relative).",
         level_note="Width changes, modifications of never-defined nodes, empty strings, none for array "
                    "nodes or with a unit, integer nodes converted by non-integer factors and a declared "
@@ -170,7 +177,11 @@ TEXT = {
                    "chained round); values exactly on an open boundary and none on a constrained node (both "
                    "refused); user functions that convert or extend what they are handed; several "
                    "!options clauses with the same numbers in different units; fully open dimensions "
-                   "before bounded ones; an imported copy given a !format of its own. Oracles: the model's commit/abort verdict in both directions (reject and "
+                   "before bounded ones; an imported copy given a !format of its own; a second, looser "
+                   "!condition in front of the generated one (a value breaking the later one is refused "
+                   "whether conditions replace or add to each other); a settings file read before the text "
+                   "that defines its nodes (unspecified whether accepted - but a returned environment "
+                   "satisfies the constraints written with the definitions). Oracles: the model's commit/abort verdict in both directions (reject and "
                    "accept), and an independent evaluator re-checks every returned environment against "
                    "all constraints its nodes carry, whatever the model predicted.",
         level_note="Values within 1e-3 relative of a boundary without sitting on it are treated as "
@@ -194,7 +205,9 @@ TEXT = {
                    "temperatures with offset conversion (0 Cel is 273.15 K), 2-D slices as element, row "
                    "and column, files of modifications used as reference sources (untyped values picked "
                    "up with their unit); an empty import may abort or add nothing), ENOENT / EACCES / EIO / undecodable "
-                   "on a chosen open, file content replaced between rounds. Oracles: values, units, types "
+                   "/ torn (a prefix cut at an arbitrary character: a file read while it was being "
+                   "written) on a chosen open, file content replaced between rounds, a documentation "
+                   "build (DIP(base, docs=True).parse_docs()) run over the base before the round's parse. Oracles: values, units, types "
                    "and paths as the model predicts; after every round every earlier environment "
                    "(including the base) and its custom units report exactly their commit-time snapshot "
                    "and SimFS content is unchanged.",
